@@ -999,3 +999,91 @@ Proof.
     unfold TInv. eexists _, _, _. split; [reflexivity|]. apply pushed_inv; [exact Hwf|exact Hmne|].
     eapply nth_error_In; eauto.
 Qed.
+
+(* ================= the iterator contract at the level of call scripts ================= *)
+
+(* what a searcher exact from lo for the denotation S must answer to a script: Next = the least
+   member at or above the watermark, Advance n (n at or above the watermark: above the last number
+   returned, not below an earlier target) = the least member at or above n; the script may go on
+   until the end is reported *)
+Inductive script_ok (S : Z -> bool) : Z -> list op -> list (option Z) -> Prop :=
+| so_nil : forall lo, script_ok S lo [] []
+| so_next_some : forall lo d r outs, least_from S lo d -> script_ok S (d + 1) r outs -> script_ok S lo (ONext :: r) (Some d :: outs)
+| so_next_end : forall lo, none_from S lo -> script_ok S lo [ONext] [None]
+| so_adv_some : forall lo n d r outs, lo <= n -> least_from S n d -> script_ok S (d + 1) r outs ->
+                script_ok S lo (OAdvance n :: r) (Some d :: outs)
+| so_adv_end : forall lo n, lo <= n -> none_from S n -> script_ok S lo [OAdvance n] [None].
+
+Section Scripts.
+  Variable lf fuel : nat.
+  Variable Inv Fin : searcher -> (Z -> bool) -> Z -> Prop.
+  Hypothesis Hn : next_exact searcher (snext lf fuel) Inv Fin.
+  Hypothesis Ha : adv_exact searcher (sadv lf fuel) Inv Fin.
+
+  Lemma script_spec : forall ops s S lo outs,
+    Inv s S lo -> script_ok S lo ops outs -> run_script lf fuel s ops = Ok outs.
+  Proof.
+    induction ops as [| o r IH]; intros s S lo outs HI Hs.
+    - inversion Hs; subst. reflexivity.
+    - inversion Hs as [ | lo' d r' outs' Hl0 Hrest | lo' Hnone0 | lo' n d r' outs' Hle Hl0 Hrest | lo' n Hle Hnone0 ]; subst;
+        cbn [run_script].
+      + destruct (Hn s S lo HI) as [res [s' [E Hpost]]]. rewrite E. cbn [rbind fst snd].
+        destruct res as [m|]; simpl in Hpost.
+        * destruct Hpost as [Hl HI']. pose proof (least_from_unique S lo _ _ Hl Hl0). subst d.
+          rewrite (IH s' S (dm_num m + 1) outs' HI' Hrest). reflexivity.
+        * destruct Hpost as [Hnone _]. exfalso. eapply least_none_false; eauto.
+      + destruct (Hn s S lo HI) as [res [s' [E Hpost]]]. rewrite E. cbn [rbind fst snd].
+        destruct res as [m|]; simpl in Hpost; [|reflexivity].
+        destruct Hpost as [Hl _]. exfalso. eapply least_none_false; eauto.
+      + destruct (Ha s S lo n HI Hle) as [res [s' [E Hpost]]]. rewrite E. cbn [rbind fst snd].
+        destruct res as [m|]; simpl in Hpost.
+        * destruct Hpost as [Hl HI']. pose proof (least_from_unique S n _ _ Hl Hl0). subst d.
+          rewrite (IH s' S (dm_num m + 1) outs' HI' Hrest). reflexivity.
+        * destruct Hpost as [Hnone _]. exfalso. eapply least_none_false; eauto.
+      + destruct (Ha s S lo n HI Hle) as [res [s' [E Hpost]]]. rewrite E. cbn [rbind fst snd].
+        destruct res as [m|]; simpl in Hpost; [|reflexivity].
+        destruct Hpost as [Hl _]. exfalso. eapply least_none_false; eauto.
+  Qed.
+End Scripts.
+
+(* a term searcher over a well-formed snapshot obeys every such script *)
+Theorem term_searcher_script : forall sn f t lf fuel ops outs,
+  wf_sn sn -> script_ok (term_S sn f t) 0 ops outs ->
+  run_script lf (Datatypes.S fuel) (term_searcher sn copts_default f t) ops = Ok outs.
+Proof.
+  intros sn f t lf fuel ops outs Hwf Hs.
+  pose proof (term_contract sn lf fuel) as [Hn Ha _].
+  apply (script_spec lf (Datatypes.S fuel) (TInv sn) (TFin sn) Hn Ha ops _ (term_S sn f t) 0 outs); [|exact Hs].
+  unfold TInv, term_searcher. eexists _, _, _. split; [reflexivity|]. apply mk_pit_inv. exact Hwf.
+Qed.
+
+(* so does a conjunction, and a slice disjunction with any min, of term searchers *)
+Theorem conjunction_of_terms_script : forall sn l lf fuel ops outs,
+  wf_sn sn -> l <> [] -> fuel_ok sn (length l) lf ->
+  script_ok (conj_S (tdenots sn l)) 0 ops outs ->
+  run_script lf (Datatypes.S (Datatypes.S fuel)) (mk_conj (tsearchers sn l)) ops = Ok outs.
+Proof.
+  intros sn l lf fuel ops outs Hwf Hne Hlf Hs.
+  apply (script_spec lf _ (K2Inv sn (length l)) KFin (K2_next sn (length l) lf Hlf fuel) (K2_adv sn (length l) lf Hlf fuel)
+           ops _ (conj_S (tdenots sn l)) 0 outs); [|exact Hs].
+  split; [|unfold narrow, mk_conj; cbn [cj_s]; unfold tsearchers; rewrite map_length; lia].
+  split; [lia|]. left. eexists _, (tdenots sn l). split; [reflexivity|]. split; [|intros x; reflexivity].
+  right. split; [|reflexivity]. unfold conj_fresh. cbn [cj_init cj_max cj_s]. split; [reflexivity|]. split; [reflexivity|].
+  split; [unfold tsearchers, tdenots; rewrite !map_length; reflexivity|].
+  intros i c S Hc HS. eapply tsearchers_fresh; eauto.
+Qed.
+
+Theorem disjunction_of_terms_script : forall sn l k lf fuel ops outs,
+  wf_sn sn -> fuel_ok sn O lf ->
+  script_ok (disj_S (tdenots sn l) k) 0 ops outs ->
+  run_script lf (Datatypes.S (Datatypes.S fuel)) (mk_disj_slice (tsearchers sn l) k) ops = Ok outs.
+Proof.
+  intros sn l k lf fuel ops outs Hwf Hlf Hs.
+  apply (script_spec lf _ (K2Inv sn O) KFin (K2_next sn O lf Hlf fuel) (K2_adv sn O lf Hlf fuel)
+           ops _ (disj_S (tdenots sn l) k) 0 outs); [|exact Hs].
+  split; [|exact I]. split; [lia|]. right.
+  eexists _, (tdenots sn l), k. split; [reflexivity|]. split; [|intros x; reflexivity].
+  right. split; [|reflexivity]. unfold dsl_fresh. cbn [ds_init ds_min ds_s]. split; [reflexivity|]. split; [reflexivity|].
+  split; [unfold tsearchers, tdenots; rewrite !map_length; reflexivity|].
+  intros i c S Hc HS. eapply tsearchers_fresh; eauto.
+Qed.
